@@ -6,7 +6,7 @@ from vt.core import R, rng_for, dn, tt_from, meta_problem, unfolding_svals
 ID = 'C04'
 LEVEL = 'exploration'
 RULE = ('complete enumeration of tensor layout (order, per-site (row,col) sizes) x spectrum family (geometric decay, '
-        'flat/gaussian, dominant+tail, exact low rank + 1e-14 noise) x dtype x truncation setting (max_rank int 1..4, '
+        'flat/gaussian, dominant+tail, exact low rank + 1e-14 noise, exactly tied singular values [weighted unit tensors]) x dtype x max_rank type (int, numpy.int64, numpy.int32) x truncation setting (max_rank int 1..4, '
         'every per-bond list over {1,2,3,inf}, thresholds {0,1e-12,1e-6,1e-2,0.3,0.9}, combinations) x entry point '
         '(TT(array), TT(cores,max_rank), ortho, ortho_right on left-orthonormal input, ortho_left on right-orthonormal '
         'input, one-sided sweeps on non-orthonormal input [rank cap only]). Non-trivial: the setting discards at least '
@@ -19,7 +19,7 @@ INF = float('inf')
 
 
 def space(tier):
-    return {'layouts': [l for l in layouts(tier)], 'families': ['decay', 'gauss', 'dominant', 'lowrank'],
+    return {'layouts': [l for l in layouts(tier)], 'families': ['decay', 'gauss', 'dominant', 'lowrank', 'ties'], 'max_rank types': ['int', 'numpy.int64', 'numpy.int32'],
             'max_rank': [1, 2, 3, 4, 'inf', 'all per-bond lists over {1,2,3,inf}'], 'threshold': THR}
 
 
@@ -53,12 +53,15 @@ def cases(tier):
                                 yield {'ep': 'tsvd', 'm': m_, 'n': n_, 'spec': spec, 'scale': scale, 'c': c, 'rel': rel, 'thr': thr, 'mr': mr}
     for sites in layouts(tier):
         d = len(sites)
-        for fam in ('decay', 'gauss', 'dominant', 'lowrank'):
+        for fam in ('decay', 'gauss', 'dominant', 'lowrank', 'ties'):
             for c in (False, True):
                 # TT(array, threshold, max_rank)
                 for thr in THR:
                     for mr in (INF, 1, 2, 3, 4):
                         yield {'ep': 'array', 'sites': sites, 'fam': fam, 'c': c, 'thr': thr, 'mr': mr}
+                        if mr in (1, 2) and thr in (0, 1e-6):
+                            for mrt in ('np64', 'np32'):       # the documented integer types of max_rank
+                                yield {'ep': 'array', 'sites': sites, 'fam': fam, 'c': c, 'thr': thr, 'mr': mr, 'mrt': mrt}
                 # ortho-family with int caps and per-bond lists
                 caps = [1, 2, 3, 4] + [[1] + list(x) + [1] for x in itertools.product([1, 2, 3, INF], repeat=d - 1)]
                 for ep in ('cores', 'ortho', 'right_on_left', 'left_on_right', 'right_raw', 'left_raw'):
@@ -66,6 +69,9 @@ def cases(tier):
                         if ep == 'cores' and isinstance(mr, list):
                             continue
                         yield {'ep': ep, 'sites': sites, 'fam': fam, 'c': c, 'thr': 0, 'mr': mr}
+                        if (isinstance(mr, list) and fam in ('gauss', 'ties')) or mr in (1, 2):
+                            for mrt in (('np64',) if isinstance(mr, list) else ('np64', 'np32')):
+                                yield {'ep': ep, 'sites': sites, 'fam': fam, 'c': c, 'thr': 0, 'mr': mr, 'mrt': mrt}
 
 
 def make_tensor(case, rng):
@@ -95,6 +101,18 @@ def make_tensor(case, rng):
         return 5.0 * rank1() + 1e-3 * g(shape)
     if fam == 'lowrank':
         return rank1() + 0.5 * rank1() + 1e-14 * g(shape)
+    if fam == 'ties':
+        # exactly tied singular values in every unfolding: sum of J unit tensors e_j x ... x e_j with weights (2,2[,1,1]) -> the
+        # unfoldings are weighted partial permutation matrices (GHZ-like states, identity-like operators)
+        d = len(sites)
+        p = [rows[i] * cols[i] for i in range(d)]
+        J = min(p)
+        w = [2.0, 2.0, 1.0, 1.0][:J]
+        t = np.zeros(p, dtype=complex if c else float)
+        for j in range(J):
+            t[tuple([j] * d)] = w[j] * ((1j) ** j if c else 1.0)
+        t = t.reshape([v for i in range(d) for v in (rows[i], cols[i])])
+        return np.transpose(t, [2 * i for i in range(d)] + [2 * i + 1 for i in range(d)])
     raise ValueError(fam)
 
 
@@ -147,6 +165,10 @@ def run_case(case, seed):
     sv = [None] + [unfolding_svals(x, d, k) for k in range(1, d)]
     caps = mr if isinstance(mr, list) else [1] + [mr] * (d - 1) + [1]
     mr_arg = list(mr) if isinstance(mr, list) else mr          # the object handed to the library (a per-bond list is an input)
+    npt = {'np64': np.int64, 'np32': np.int32}.get(case.get('mrt'))
+    if npt is not None:                                        # NumPy integers are documented max_rank types
+        mr_arg = [npt(v) if v != INF else v for v in mr_arg] if isinstance(mr, list) else npt(mr)
+    mr_given = list(mr_arg) if isinstance(mr, list) else mr_arg
     key = 'trunc:' + ep
     tail = lambda k, rk: float(np.sum(sv[k][int(rk):] ** 2)) if rk != INF else 0.0
     bounded = True
@@ -156,7 +178,7 @@ def run_case(case, seed):
             if thr != 0:
                 kw['threshold'] = thr
             if mr != INF:
-                kw['max_rank'] = mr
+                kw['max_rank'] = mr_arg
             T = TT(np.array(x), **kw)
         else:
             full = TT(np.array(x))
@@ -182,7 +204,8 @@ def run_case(case, seed):
                 elif ep == 'left_raw':
                     T.ortho_left(max_rank=mr_arg); bounded = False
         if isinstance(mr, list):
-            r.true(key + ':cap-list-unchanged', mr_arg == list(mr), 'the per-bond max_rank list was modified: %s -> %s' % (mr, mr_arg))
+            r.true(key + ':cap-list-unchanged', mr_arg == mr_given and all(type(a_) is type(b_) for a_, b_ in zip(mr_arg, mr_given)),
+                   'the per-bond max_rank list was modified: %s -> %s' % (mr_given, mr_arg))
         mp = meta_problem(T)
         if not r.true(key + ':meta', mp is None, mp):
             return r
